@@ -8,6 +8,7 @@ package main
 import (
 	"bytes"
 	"context"
+	"errors"
 	"fmt"
 	"io"
 	"os"
@@ -54,7 +55,37 @@ type params struct {
 }
 
 func doImport(ds ipld.DAGService, p params, data []byte) (ipld.Node, error) {
-	spl, err := chunk.FromString(bytes.NewReader(data), p.spec)
+	return doImportFrom(ds, p, bytes.NewReader(data))
+}
+
+// faultReader delivers data and then fails with a non-EOF error (for ever),
+// optionally handing out the last good bytes together with the error.
+type faultReader struct {
+	data     []byte
+	off      int
+	withData bool
+	err      error
+}
+
+var errInjected = errors.New("injected read fault: input/output error")
+
+func (f *faultReader) Read(p []byte) (int, error) {
+	if len(p) == 0 {
+		return 0, nil
+	}
+	if f.off >= len(f.data) {
+		return 0, f.err
+	}
+	n := copy(p, f.data[f.off:])
+	f.off += n
+	if f.withData && f.off == len(f.data) {
+		return n, f.err
+	}
+	return n, nil
+}
+
+func doImportFrom(ds ipld.DAGService, p params, rd io.Reader) (ipld.Node, error) {
+	spl, err := chunk.FromString(rd, p.spec)
 	if err != nil {
 		return nil, fmt.Errorf("chunker: %w", err)
 	}
@@ -264,7 +295,8 @@ func oneImport(stratum string) func(k *vlib.Case) {
 		big := stratum == "balanced-big" || stratum == "trickle-big"
 		p, data, kind := genCase(r, layout, big, k.C.Quick())
 		if stratum == "balanced-raw-single" {
-			// trigger stratum of the known finding: raw leaves, <= 1 chunk, attributes requested
+			// raw leaves, <= 1 chunk, attributes requested: the single raw leaf
+			// cannot carry mode/mtime itself (formerly a defect, fixed upstream)
 			p.raw = true
 			csz := vlib.Pick(r, []int{1, 5, 16, 1024})
 			p.spec = fmt.Sprintf("size-%d", csz)
@@ -278,13 +310,6 @@ func oneImport(stratum string) func(k *vlib.Case) {
 			}
 		}
 		lens := chunkLens(p.spec, data)
-		attrs := p.mode != 0 || !p.mtime.IsZero()
-		trigger := p.layout == "balanced" && p.raw && len(lens) <= 1
-		if trigger && attrs && stratum != "balanced-raw-single" {
-			// clean strata stay away from the known finding's trigger
-			p.mode, p.mtime = 0, time.Time{}
-			attrs = false
-		}
 		k.Logf("%s", describe(p))
 		k.Logf("input kind=%s len=%d chunks=%d", kind, len(data), len(lens))
 
@@ -326,12 +351,7 @@ func oneImport(stratum string) func(k *vlib.Case) {
 			k.Fail("readback/open", "DagReader opens the stored root", "reader", err.Error())
 			return
 		}
-		metaClass := func(what string) string {
-			if rootIsRaw && trigger {
-				return "balanced/raw-root/metadata"
-			}
-			return "metadata/" + what
-		}
+		metaClass := func(what string) string { return "metadata/" + what }
 		if sr.Mode() != p.mode {
 			k.Fail(metaClass("mode"), "root carries the requested mode", p.mode.String(), fmt.Sprintf("%s (root is raw node: %v)", sr.Mode(), rootIsRaw))
 		}
@@ -382,10 +402,89 @@ func oneImport(stratum string) func(k *vlib.Case) {
 		if tree.Height >= 3 {
 			k.Nontrivial()
 		}
-		if stratum == "balanced-raw-single" && rootIsRaw {
+		if stratum == "balanced-raw-single" && len(lens) <= 1 {
 			k.Nontrivial()
 		}
 	}
+}
+
+// faultImport: the reader behind the chunker fails with a non-EOF error at a
+// chosen byte offset of the intended input. The statement's round-trip clause
+// leaves two acceptable outcomes: the import reports an error, or it returns
+// a file that reads back as the *complete* intended input. A nil error with a
+// shorter file is the violation.
+func faultImport(k *vlib.Case) {
+	r := k.R
+	ctx := context.Background()
+	layout := vlib.Pick(r, []string{"balanced", "trickle"})
+	p, data, kind := genCase(r, layout, false, true)
+	if len(data) > 200000 {
+		data = data[:200000-r.Intn(5)]
+	}
+	if len(data) == 0 && r.Chance(3, 4) {
+		data, kind = genData(r, r.Range(1, 600))
+	}
+	lens := chunkLens(p.spec, data)
+	// fault offsets: 0, inside a chunk, on a chunk boundary, in the last chunk, at the very end
+	var bounds []int
+	o := 0
+	for _, l := range lens {
+		o += l
+		bounds = append(bounds, o)
+	}
+	at, where := 0, "offset-0"
+	if len(data) > 0 {
+		switch r.Intn(6) {
+		case 0:
+		case 1:
+			ci := r.Intn(len(lens))
+			start := bounds[ci] - lens[ci]
+			at, where = start+r.Intn(lens[ci]), "inside-chunk"
+			if at == start && lens[ci] > 1 {
+				at++
+			}
+		case 2:
+			at, where = bounds[r.Intn(len(bounds))], "chunk-boundary"
+		case 3:
+			last := len(lens) - 1
+			at, where = bounds[last]-lens[last]+r.Intn(lens[last]), "last-chunk"
+		case 4:
+			at, where = len(data), "at-end(error instead of EOF)"
+		default:
+			at, where = r.Intn(len(data)+1), "random"
+		}
+	}
+	fr := &faultReader{data: data[:at], err: errInjected, withData: r.Chance(1, 3)}
+	k.Logf("%s", describe(p))
+	k.Logf("intended input kind=%s len=%d chunks=%d; reader fails after %d bytes (%s, error-with-last-bytes=%v)", kind, len(data), len(lens), at, where, fr.withData)
+	ds := mdtest.Mock()
+	root, err := doImportFrom(ds, p, fr)
+	k.C.Count("fault_imports", 1)
+	if at < len(data) {
+		k.Nontrivial()
+	}
+	if err != nil {
+		k.C.Count("fault_imports_reported_error", 1)
+		k.Logf("  -> error: %v", err)
+		return
+	}
+	if root == nil {
+		k.Fail("import-nil-root", "Layout returns a root or an error", "root or error", "nil, nil")
+		return
+	}
+	var got []byte
+	size := uint64(0)
+	dr, derr := uio.NewDagReader(ctx, root, ds)
+	if derr == nil {
+		size = dr.Size()
+		got, derr = io.ReadAll(dr)
+	}
+	if derr != nil || !bytes.Equal(got, data) {
+		k.Fail("import-error-swallowed", "a failed input stream yields an error, or else the complete input", fmt.Sprintf("error (reader failed after %d of %d bytes), or a file of %d bytes", at, len(data), len(data)),
+			fmt.Sprintf("nil error, root %s, Size()=%d, reads back %d bytes (read error: %v); fault %s", root.Cid(), size, len(got), derr, where))
+		return
+	}
+	k.C.Count("fault_imports_complete_content", 1)
 }
 
 func report(k *vlib.Case, iss []dagcheck.Issue) {
@@ -413,7 +512,7 @@ func mismatch(got, want []byte) string {
 }
 
 func run(c *vlib.Ctx) {
-	c.Rule("case = one import: layout {balanced,trickle} x width {2..8,16,174,1024} x chunker {size-1..4096, rabin-min-avg-max small; big strata: size-32K..256K, default, rabin, buzhash} x raw/dag-pb leaves x CID builder {nil,v0,v1 sha2-256,v1 blake2b-256,v1 sha2-512} x mode (12 values incl. setuid/setgid/sticky) x mtime {zero,epoch,negative,nanos,negative+nanos,random}; chunk counts at the layout's shape boundaries (w^d±1, 2w^d±1; trickle layer capacities ±1) or random up to 1200 (thorough 2000; 1000 under -race) leaves, partial last chunk; inputs random/constant/periodic (shared sub-DAGs). Every stored node is re-fetched and decoded. distinct = FNV of config+input descriptor+resulting root CID/shape; non-trivial = DAG height >= 3 (stratum balanced-raw-single: root is a raw node).")
+	c.Rule("case = one import: layout {balanced,trickle} x width {2..8,16,174,1024} x chunker {size-1..4096, rabin-min-avg-max small; big strata: size-32K..256K, default, rabin, buzhash} x raw/dag-pb leaves x CID builder {nil,v0,v1 sha2-256,v1 blake2b-256,v1 sha2-512} x mode (12 values incl. setuid/setgid/sticky) x mtime {zero,epoch,negative,nanos,negative+nanos,random}; chunk counts at the layout's shape boundaries (w^d±1, 2w^d±1; trickle layer capacities ±1) or random up to 1200 (thorough 2000; 1000 under -race) leaves, partial last chunk; inputs random/constant/periodic (shared sub-DAGs). Every stored node is re-fetched and decoded. distinct = FNV of config+input descriptor+resulting root CID/shape; non-trivial = DAG height >= 3 (stratum balanced-raw-single: <=1 chunk with attributes requested). Stratum fault: same generator (inputs <= 200 KB), the reader behind the chunker returns a non-EOF error after k bytes (k = 0, inside a chunk, on a chunk boundary, in the last chunk, at the end, random; error alone or together with the last bytes); acceptable = error, or nil with the complete intended content; non-trivial = k < len(input).")
 	// thorough counts are for a build without -race; under -race (hashing and
 	// protobuf encoding ~20x slower) the tier runs 1/6 of them, never fewer than quick.
 	n := func(q, t int) int {
@@ -430,4 +529,5 @@ func run(c *vlib.Ctx) {
 	c.Cases("balanced-big", n(12, 100), oneImport("balanced-big"))
 	c.Cases("trickle-big", n(12, 100), oneImport("trickle-big"))
 	c.Cases("balanced-raw-single", n(24, 200), oneImport("balanced-raw-single"))
+	c.Cases("fault", n(160, 1600), faultImport)
 }
